@@ -82,6 +82,9 @@ Fixpoint remove1 (d : Z) (l : list Z) : list Z :=
   match l with [] => [] | e :: l' => if e =? d then l' else e :: remove1 d l' end.
 Definition memz (d : Z) (l : list Z) : bool := existsb (Z.eqb d) l.
 
+(* expected incoming balls of other sources (an entrance-counted source has registered its own ball already) *)
+Definition others (d : Z) (l : list Z) : list Z := filter (fun s => negb (s =? d)) l.
+
 Definition blfc (s : Z) : bool := (s =? BL) || (s =? FC).
 
 (* device.balls as BallDevice.balls computes it *)
@@ -233,7 +236,7 @@ Definition step (c : cfg) (x : st) (l : label) : option st :=
       if negb (isdev c d && ((f x fS d =? EJECTING) || (f x fS d =? BL))) then None else
       let t := f x fTG d in
       if t =? PF then Some x
-      else guard (isdev c t && (Z.of_nat (length (inc x t)) <? cap c t - f x fC t)) x
+      else guard (isdev c t && (Z.of_nat (length (others d (inc x t))) <? cap c t - f x fC t)) x
   | SLeave s t =>
       if s =? PF then
         guard (isdev c t && (1 <=? z x zLOOSE)) (addz (addz x zLOOSE (-1)) zTR 1)
